@@ -318,10 +318,20 @@ Definition mo_outcome (o : mobs) : outcome := if mo_panic o then Panic else Done
 
 Definition del_prevote (v : nat) (l : list (nat * Z)) : list (nat * Z) := filter (fun y => negb (Nat.eqb (fst y) v)) l.
 
+(** one vote per (validator, pair): of several tuples naming the same pair only the first counts.  (The parser of the
+    current code refuses such strings, so for it this is the identity; a message server that accepts them must not let one
+    validator weigh twice on a pair.) *)
+Fixpoint dedup_pairs (ts : list (nat * Z)) : list (nat * Z) :=
+  match ts with
+  | [] => []
+  | t :: r => t :: filter (fun u => negb (Nat.eqb (fst u) (fst t))) (dedup_pairs r)
+  end.
+
 (** The votes cast in the current period, tracked by the SPECIFICATION from the messages and their observed accept
     flags — never read from the implementation's store.  A vote belongs to the VALIDATOR its [validator] field
-    decodes to, however that field is spelled: an accepted vote message replaces that validator's vote and consumes its
-    prevote; an accepted prevote is recorded with the block height.  [None]: a message was accepted although its
+    decodes to, however that field is spelled, and is keyed by (validator, pair): an accepted vote message replaces that
+    validator's vote — at most ONE rate per pair ([dedup_pairs]), so every validator's power counts once per pair and the
+    voters of a pair are distinct validators — and consumes its prevote; an accepted prevote is recorded with the block height.  [None]: a message was accepted although its
     validator field stands for nobody. *)
 Fixpoint track (h : Z) (cast : list avote) (pvs : list (nat * Z)) (l : list (omsg * bool))
   : option (list avote * list (nat * Z)) :=
@@ -329,7 +339,7 @@ Fixpoint track (h : Z) (cast : list avote) (pvs : list (nat * Z)) (l : list (oms
   | [] => Some (cast, pvs)
   | (MVote m, true) :: r =>
       match decode (vm_validator m) with
-      | Some v => track h (put_vote (mkAVote v (vm_tuples m)) cast) (del_prevote v pvs) r
+      | Some v => track h (put_vote (mkAVote v (dedup_pairs (vm_tuples m))) cast) (del_prevote v pvs) r
       | None => None
       end
   | (MPrevote m, true) :: r =>
